@@ -394,3 +394,85 @@ func SAKeys(m proto.Message) []string {
 	sort.Strings(out)
 	return out
 }
+
+// PopulateNamesSA is PopulateNames with every search-attribute container (also inside event-bearing blobs)
+// holding the "mixed" key set spelled for the given side ("local" or "remote").
+func PopulateNamesSA(md protoreflect.MessageDescriptor, nsValue, saSide string) proto.Message {
+	m := PopulateNames(md, nsValue)
+	_, err := Visit(m.ProtoReflect(), true, func(c protoreflect.Message, fd protoreflect.FieldDescriptor) bool {
+		if !IsSAContainer(fd) {
+			return false
+		}
+		mm := SAMutableMap(c, fd)
+		var keys []protoreflect.MapKey
+		mm.Range(func(k protoreflect.MapKey, _ protoreflect.Value) bool { keys = append(keys, k); return true })
+		for _, k := range keys {
+			mm.Clear(k)
+		}
+		SetSA(c, fd, SAKeySets["mixed"], saSide)
+		return true
+	})
+	if err != nil {
+		panic(err)
+	}
+	return m
+}
+
+// FillEmptyNames sets every empty namespace-name field of every message present in m (also inside
+// event-bearing blobs) to value, so that a case built for one path is "allowed everywhere else".
+func FillEmptyNames(m proto.Message, value string) {
+	var fill func(pm protoreflect.Message) bool
+	fill = func(pm protoreflect.Message) bool {
+		changed := false
+		fs := pm.Descriptor().Fields()
+		for i := 0; i < fs.Len(); i++ {
+			fd := fs.Get(i)
+			if IsNamespaceNameField(fd) && pm.Get(fd).String() == "" {
+				if od := fd.ContainingOneof(); od != nil && !od.IsSynthetic() && pm.WhichOneof(od) != nil && pm.WhichOneof(od) != fd {
+					continue // another arm of the oneof is set
+				}
+				pm.Set(fd, protoreflect.ValueOfString(value))
+				changed = true
+			}
+		}
+		return changed
+	}
+	// top-level message first, then everything reachable
+	top := fill(m.ProtoReflect())
+	_ = top
+	for pass := 0; pass < 2; pass++ {
+		_, err := Visit(m.ProtoReflect(), true, func(c protoreflect.Message, fd protoreflect.FieldDescriptor) bool {
+			if fd.Kind() != protoreflect.MessageKind || fd.IsMap() && fd.MapValue().Kind() != protoreflect.MessageKind {
+				return false
+			}
+			if strings.HasPrefix(string(fd.Message().FullName()), "google.protobuf.") {
+				return false
+			}
+			changed := false
+			v := c.Get(fd)
+			switch {
+			case fd.IsMap():
+				v.Map().Range(func(_ protoreflect.MapKey, mv protoreflect.Value) bool {
+					if fill(mv.Message()) {
+						changed = true
+					}
+					return true
+				})
+			case fd.IsList():
+				for i := 0; i < v.List().Len(); i++ {
+					if fill(v.List().Get(i).Message()) {
+						changed = true
+					}
+				}
+			default:
+				if fill(v.Message()) {
+					changed = true
+				}
+			}
+			return changed
+		})
+		if err != nil {
+			panic(err)
+		}
+	}
+}
